@@ -171,7 +171,8 @@ Definition spec_mkdirall (c : cfg) (a : ns) (n : str) (perm : N) (now : Z) : ns 
    is owned by the creating process (c_uid, c_gid, c_uname, c_gname), has mode 0666, modification time [now] and access /
    change time 0 (the index records the times of the header that was written; nothing stamps these two).  Writing to an
    EXISTING file keeps its mode, owner, group, access and change time, replaces size and content and stamps the
-   modification time (this stamp is what the implementation does not do: T02Counter.v (2)). *)
+   modification time (as the implementation does when it flushes content; only when NOTHING is written to an existing
+   EMPTY file does the implementation do nothing at all, where this reference still stamps: T02Counter.v (2)). *)
 Definition file_node (c : cfg) (size : N) (now : Z) (cid : N * N) : node :=
   {| n_tf := TypeReg; n_size := size; n_mode := perm_bits 438;
      n_uid := c_uid c; n_gid := c_gid c; n_uname := c_uname c; n_gname := c_gname c;
